@@ -7,6 +7,7 @@ VARIABLE l
 Log == JsonDeserialize(IOEnv.TRACE_FILE).events
 Same(r, o) == CASE r.k = "oos" -> TRUE [] r.k = "num" -> o.k = "num" /\ o.n = r.n [] r.k = "bool" -> o.k = "bool" /\ o.b = r.b
                 [] r.k = "err" -> o.k = "err"
+                [] r.k = "blank" -> o.k = "blank" [] r.k = "text" -> o.k = "text"
 Init == l = 1
 Step == /\ l <= Len(Log)
         /\ LET e == Log[l] r == Embed(e.emb, Eval(e.ast, e.env)) IN IF Same(r, e.obs) THEN TRUE ELSE PrintT(<<"V", l, r>>)
